@@ -21,8 +21,8 @@ func init() {
 		Explanation: "Decides ONE clause of the property — 'the selected pages … are always within 1 to the page count; page collections … also within range' — for the functions of pkg/api/selectPages.go. " +
 			"Sinks: every key stored into a types.IntSet, every element appended to a []int page collection, and every argument handed to processPageForCollection. " +
 			"For each sink value k the rule proves k ≥ 1 and k ≤ pageCount at the sink from the shape of the code: constants; the pageCount parameter; comparisons on dominating branch edges (if i > pageCount { return }, the loop guard j <= thru, if pageCount-i < 1 { return }; expressions are matched structurally because SSA recomputes pageCount-i); clamps (a φ whose every incoming edge is bounded: if thru > pageCount { thru = pageCount }); loop counters (φ(init, φ+c), c > 0: lower bound by induction from init, upper bound from the loop guard); a − b with a bounded above and b ≥ 0; keys read back from another selection set. " +
-			"A sink whose bound cannot be shown is reported with the bound that is missing. (R3, one clause of left-to-right evaluation) 'even'/'odd' recognise an already decided page by its presence in the set, so no handler deletes from a selection set — a negated term stores false. (R4) every range over a page selection reads the value, false meaning taken out; (R5) in calcSelPages the term handler's call dominates every back edge of the loop over the terms. NOT decided: which pages a term selects beyond that (negation, even/odd arithmetic), order and repetition in collections, rejection of expressions outside the syntax — those are the meaning of the grammar over all expressions, not a shape of the code.",
-		Rules:       []string{"C31.R1 range: page numbers entering a selection set or collection are ≥ 1", "C31.R2 range: page numbers entering a selection set or collection are ≤ pageCount", "C31.R3 shape: nothing is deleted from a selection set (even/odd recognise a decided page by its presence)", "C31.R4 shape: every loop over a page selection reads the entry's value", "C31.R5 dominance: every term of the expression reaches the term handler, in order"},
+			"A sink whose bound cannot be shown is reported with the bound that is missing. (R3, one clause of left-to-right evaluation) 'even'/'odd' recognise an already decided page by its presence in the set, so no handler deletes from a selection set — a negated term stores false. (R4) every range over a page selection reads the value, false meaning taken out; (R5) in calcSelPages the term handler's call dominates every back edge of the loop over the terms. (R6) the lower-bound tests (v < 1) of each X / XForCollection pair have the same drop/continue classification in source order; (R7) no function of the file deletes from a slice in place inside a loop whose counter is incremented regardless. NOT decided: which pages a term selects beyond that (negation, even/odd arithmetic), order and repetition in collections, rejection of expressions outside the syntax — those are the meaning of the grammar over all expressions, not a shape of the code.",
+		Rules:       []string{"C31.R1 range: page numbers entering a selection set or collection are ≥ 1", "C31.R2 range: page numbers entering a selection set or collection are ≤ pageCount", "C31.R3 shape: nothing is deleted from a selection set (even/odd recognise a decided page by its presence)", "C31.R4 shape: every loop over a page selection reads the entry's value", "C31.R5 dominance: every term of the expression reaches the term handler, in order", "C31.R6 siblings: selection and collection evaluators of a term shape treat page numbers below 1 alike", "C31.R7 shape: no in-place deletion from an indexed slice under a running counter (collection removal examines every element)"},
 		Assumptions: []string{"tokens handed to the handlers match the selection syntax (ParsePageSelection ran), whose number groups are \\d+: strconv.Atoi results are ≥ 0", "pageCount ≥ 1 (a document has at least one page)"},
 		Level:       "other",
 		Technique:   "relational range argument on SSA: dominating-edge comparison facts, structural expression matching, φ-edge case split, induction on loop counters",
@@ -598,6 +598,10 @@ func runC31(c *Ctx) {
 	r.MinInst["C31.R5"] = 1
 	checkSelectionValueRead(c)
 	checkEveryTermEvaluated(c)
+	r.MinInst["C31.R6"] = 3
+	r.MinInst["C31.R7"] = 5
+	checkSelectionCollectionSiblings(c)
+	checkCollectionRemovalComplete(c)
 	checkDecidedPagesStay(c)
 	sinks, exempt := collectC31Sinks(p)
 	for _, e := range exempt {
@@ -860,4 +864,208 @@ func checkEveryTermEvaluated(c *Ctx) {
 	if n == 0 {
 		r.Bad("C31.R5", fid, "every term is evaluated", p.Pos(fn.Pos()), "UNDECIDED: no loop that calls handlePageSelectionToken")
 	}
+}
+
+// inPlaceDeleteSkips finds the pattern `for i := …; i < len(a); i++ { … a = append(a[:i], a[i+1:]...) … }` in which
+// the path through the deletion reaches the back edge with the counter incremented as usual: the element that moved
+// into position i is never examined. Returned: the append calls.
+func inPlaceDeleteSkips(fn *ssa.Function) []*ssa.Call {
+	var out []*ssa.Call
+	for _, l := range naturalLoops(fn) {
+		for _, in := range l.header.Instrs {
+			ph, ok := in.(*ssa.Phi)
+			if !ok {
+				break
+			}
+			// +1 counter
+			var incs []ssa.Value
+			plain := true
+			for ei, e := range ph.Edges {
+				if !l.blocks[l.header.Preds[ei]] {
+					continue
+				}
+				bo, ok := e.(*ssa.BinOp)
+				if ok && bo.Op == token.ADD && bo.X == ssa.Value(ph) {
+					if n, ok := c31ConstInt(bo.Y); ok && n == 1 {
+						incs = append(incs, e)
+						continue
+					}
+				}
+				plain = false
+			}
+			if len(incs) == 0 || !plain {
+				continue // no counter, or some path adjusts it (i--, continue without increment …)
+			}
+			for b := range l.blocks {
+				for _, bi := range b.Instrs {
+					call, ok := bi.(*ssa.Call)
+					if !ok {
+						continue
+					}
+					bt, ok := call.Call.Value.(*ssa.Builtin)
+					if !ok || bt.Name() != "append" || len(call.Call.Args) != 2 {
+						continue
+					}
+					s0, ok0 := call.Call.Args[0].(*ssa.Slice)
+					s1, ok1 := call.Call.Args[1].(*ssa.Slice)
+					if !ok0 || !ok1 || s0.High != ssa.Value(ph) || s0.Low != nil || s1.High != nil {
+						continue
+					}
+					lo, ok := s1.Low.(*ssa.BinOp)
+					if !ok || lo.Op != token.ADD || lo.X != ssa.Value(ph) {
+						continue
+					}
+					if n, ok := c31ConstInt(lo.Y); !ok || n != 1 {
+						continue
+					}
+					// the deletion leaves the loop at once (break/return) on every path?
+					leaves := true
+					seen := map[*ssa.BasicBlock]bool{b: true}
+					st := []*ssa.BasicBlock{b}
+					for len(st) > 0 && leaves {
+						x := st[len(st)-1]
+						st = st[:len(st)-1]
+						for _, s := range x.Succs {
+							if s == l.header {
+								leaves = false
+								break
+							}
+							if l.blocks[s] && !seen[s] {
+								seen[s] = true
+								st = append(st, s)
+							}
+						}
+					}
+					if !leaves {
+						out = append(out, call)
+					}
+				}
+			}
+		}
+	}
+	return out
+}
+
+func init() {
+	extraDebug["inplacedel"] = func(p *Program) {
+		for _, fn := range p.Funcs {
+			if !isSubject(fn) {
+				continue
+			}
+			for _, c := range inPlaceDeleteSkips(fn) {
+				fmt.Printf("%s\t%s\n", FuncID(fn), p.Pos(c.Pos()))
+			}
+		}
+	}
+}
+
+// ---------------- C31.R6 / R7 (round 4 seeds C31-E, C31-F) ----------------
+
+// R6 (siblings): every term shape has two evaluators, X for selection sets and XForCollection for collections; an
+// expression means the same pages in both. Each comparison of a page number with 1 on its lower side (v < 1) is
+// classified by what its true edge does — "drop" (leads to a return without touching the result) or "clamp/continue"
+// — and the sequence of classifications must be the same in X and XForCollection.
+func lowerBoundTreatments(fn *ssa.Function) []string {
+	type item struct {
+		pos token.Pos
+		s   string
+	}
+	var items []item
+	eachInstr(fn, func(_ *ssa.BasicBlock, _ int, i ssa.Instruction) {
+		bo, ok := i.(*ssa.BinOp)
+		if !ok {
+			return
+		}
+		op := bo.Op
+		x, y := bo.X, bo.Y
+		if _, isC := x.(*ssa.Const); isC {
+			x, y = y, x
+			op = mirrorOp(op)
+		}
+		k, ok := c31ConstInt(y)
+		if !ok {
+			return
+		}
+		// v < 1, v <= 0
+		if !((op == token.LSS && k == 1) || (op == token.LEQ && k == 0)) {
+			return
+		}
+		if _, isLen := x.(*ssa.Call); isLen {
+			return
+		}
+		for _, e := range condEdges(bo, true) {
+			b := e.From.Succs[e.Succ]
+			// follow straight-line jumps
+			seen := map[*ssa.BasicBlock]bool{}
+			for len(b.Succs) == 1 && !seen[b] {
+				seen[b] = true
+				b = b.Succs[0]
+			}
+			cls := "continue"
+			if len(b.Instrs) > 0 {
+				if _, isRet := b.Instrs[len(b.Instrs)-1].(*ssa.Return); isRet {
+					cls = "drop"
+				}
+			}
+			items = append(items, item{bo.Pos(), cls})
+		}
+	})
+	sort.Slice(items, func(i, j int) bool { return items[i].pos < items[j].pos })
+	var out []string
+	for _, it := range items {
+		out = append(out, it.s)
+	}
+	return out
+}
+
+func checkSelectionCollectionSiblings(c *Ctx) {
+	p, r := c.P, c.R
+	n := 0
+	for _, fn := range p.Funcs {
+		if !isSubject(fn) || !strings.HasSuffix(p.File(fn.Pos()), c31File) || !strings.HasSuffix(fn.Name(), "ForCollection") {
+			continue
+		}
+		sib := p.Func("pkg/api." + strings.TrimSuffix(fn.Name(), "ForCollection"))
+		if sib == nil {
+			continue
+		}
+		a, b := lowerBoundTreatments(sib), lowerBoundTreatments(fn)
+		if len(a) == 0 && len(b) == 0 {
+			continue
+		}
+		n++
+		construct := "lower bound treatment vs " + fn.Name()
+		if strings.Join(a, ",") == strings.Join(b, ",") {
+			r.OK("C31.R6", FuncID(sib), construct, p.Pos(sib.Pos()), "both evaluators: "+strings.Join(a, ","), true)
+		} else {
+			r.Bad("C31.R6", FuncID(sib), construct, p.Pos(sib.Pos()), fmt.Sprintf("the selection evaluator treats a page number below 1 as [%s], its collection sibling as [%s]: the same term (0-3, 0-l …) denotes different pages in a selection and in a collection — one of them drops a range the other clamps to page 1", strings.Join(a, ","), strings.Join(b, ",")))
+		}
+	}
+	if n == 0 {
+		r.Bad("C31.R6", "pkg/api", "anchor", "", "UNRESOLVED-ANCHOR: no selection/collection evaluator pair with a lower-bound test")
+	}
+}
+
+// R7: removing a page from a collection examines every element. The tree builds a filtered copy; the classic
+// in-place form (append(a[:i], a[i+1:]...) under a counter that is incremented all the same) skips the element
+// after each removed one, so "3,3,!3" keeps a 3. Expected count of the pattern: zero, in every function of the file.
+func checkCollectionRemovalComplete(c *Ctx) {
+	p, r := c.P, c.R
+	n := 0
+	for _, fn := range p.Funcs {
+		if !isSubject(fn) || !strings.HasSuffix(p.File(fn.Pos()), c31File) || len(naturalLoops(fn)) == 0 {
+			continue
+		}
+		n++
+		hits := inPlaceDeleteSkips(fn)
+		if len(hits) == 0 {
+			r.OK("C31.R7", FuncID(fn), "no in-place deletion under a running index", p.Pos(fn.Pos()), fmt.Sprintf("%d loops, none deletes from the slice it indexes while the counter runs on", len(naturalLoops(fn))), fn.Name() == "deletePageFromCollection")
+		} else {
+			r.Bad("C31.R7", FuncID(fn), "no in-place deletion under a running index", p.Pos(hits[0].Pos()), "an element is deleted from the slice in place (append(a[:i], a[i+1:]...)) and the loop goes on with i+1: the element that moved into position i is never examined, so a page collected twice in a row survives its negated term")
+		}
+	}
+	if p.Func("pkg/api.deletePageFromCollection") == nil {
+		r.Bad("C31.R7", "pkg/api.deletePageFromCollection", "anchor", "", "UNRESOLVED-ANCHOR")
+	}
+	_ = n
 }
